@@ -74,7 +74,10 @@ def add_joins(rng, case):
                 if parent['subject'].get('termtype') not in ('iri', 'bnode'):
                     continue
                 ccols, pcols = case.columns[tm['source']], case.columns[parent['source']]
-                join = [[rng.choice(ccols), rng.choice(pcols)]] if rng.random() < 0.8 else []
+                # a referencing object map WITHOUT join condition is evaluated on the child's own rows (R2RML 8: the joint query is the
+                # child query), which only means something when both maps have the same logical source: generated for `parent is tm`
+                # only (two triples maps may get different logical tables over the same file in the SQL spellings)
+                join = [[rng.choice(ccols), rng.choice(pcols)]] if (rng.random() < 0.8 or parent is not tm) else []
                 if parent is tm and rng.random() < 0.5:
                     c = rng.choice(ccols)
                     join = [[c, c]]
